@@ -15,6 +15,7 @@ mod canon;
 mod wrap;
 mod common;
 mod dml;
+mod ddl;
 mod gen_sql;
 mod kwhelpers;
 mod cursor;
@@ -85,6 +86,7 @@ fn main() {
                 "dtprint" => c18::corr_print(dir, seed, &tier),
                 "queries" => query::corr(dir, seed, &tier),
                 "dml" => dml::corr(dir, seed, &tier),
+                "ddl" => ddl::corr(dir, seed, &tier),
                 _ => { eprintln!("no corr stream {name}"); std::process::exit(2) }
             };
             rep.emit();
